@@ -47,7 +47,7 @@ UNIT = {
         dict(cls='bring_up_reordering', name='reorderVariables', file=BU, loops=2, fires={'R9subst': 1}),
     ],
     'stubs': ['executable stubs for the two schedules: the forest is its current order (an array); getVarByLevel reads it, swapAdjacentVariables(l) exchanges levels l and l+1 and asserts 1 <= l < n; forest::getDomain()->getNumVariables() is mapped (must fire) to the model size'],
-    'assumptions': ['BOUNDED: domains of 1..RO_MAXN = 4 variables, every current order and every target order (both symbolic permutations); not counted as proved'],
+    'assumptions': ['BOUNDED: domains of 1..RO_MAXN = 4 variables (5 in the thorough tier), every current order and every target order (both symbolic permutations); not counted as proved'],
     'unverified_surroundings': {'C13': ['the four cost-driven schedules (lowest_cost, lowest_memory, random, larc: they consult node counts of the forest)', 'forests/mtmxd.cc swaps']},
     'jobs': [
         job('swap_method_selectors', 'lemma_swap_method'),
@@ -56,5 +56,9 @@ UNIT = {
         bjob('highest_inversion_schedule', ['C13'], defines=['RO_HIGHEST']),
         bjob('sink_down_schedule', ['C13'], defines=['RO_SINK']),
         bjob('bring_up_schedule', ['C13'], defines=['RO_BRING']),
+        bjob('lowest_inversion_schedule_5', ['C13'], defines=['RO_LOWEST', 'RO_BIG'], unwind=9, tier='thorough', timeout=3600),
+        bjob('highest_inversion_schedule_5', ['C13'], defines=['RO_HIGHEST', 'RO_BIG'], unwind=9, tier='thorough', timeout=3600),
+        bjob('sink_down_schedule_5', ['C13'], defines=['RO_SINK', 'RO_BIG'], unwind=9, tier='thorough', timeout=3600),
+        bjob('bring_up_schedule_5', ['C13'], defines=['RO_BRING', 'RO_BIG'], unwind=9, tier='thorough', timeout=3600),
     ],
 }
